@@ -42,7 +42,10 @@ class C19(Prop):
         f = lang.gen_formula(rng, c)
         n = rng.randint(2, 20)
         names = lang.variables(f) or [c.vars[0]]
-        return {'formula': f, 'data': lang.gen_trace(rng, names, n), 'period': rng.choice(sorted(PERIODS))}
+        case = {'formula': f, 'data': lang.gen_trace(rng, names, n), 'period': rng.choice(sorted(PERIODS))}
+        if rng.random() < 0.12:
+            case['useed'] = rng.randrange(1 << 30)
+        return case
 
     def judge(self, case):
         v = Verdict()
@@ -53,6 +56,10 @@ class C19(Prop):
         h = lang.horizon(f)                       # in samples
         fs = scale_ivl(f, P)                      # bounds in seconds
         text = lang.to_text(fs)
+        if case.get('useed') is not None:
+            import random
+            text = lang.unit_text(fs, random.Random(case['useed']))      # same durations, unit-suffix notation
+            v.info['class:unit-suffixes'] = 1
         try:
             exp = refd.evaluate(f, data, n)
         except refd.Undefined:
